@@ -1,10 +1,12 @@
 (* C28 — property theorems only: each closed by [exact lemma], followed by Print Assumptions. *)
-From Coq Require Import List NArith ZArith Bool RelationClasses.
-From Verif Require Import Common.GoStr C28.Model C28.Proof.
+From Coq Require Import List NArith ZArith Bool RelationClasses Permutation.
+From Verif Require Import Common.GoStr C28.Model C28.Proof C28.MapProof.
 Import ListNotations.
 
 (* identical returns for all type terms: with fuel >= size x + size y the answer is a boolean and the
-   same boolean for every larger fuel (fuel exhaustion never masquerades as an answer) *)
+   same boolean for every larger fuel (fuel exhaustion never masquerades as an answer).
+   Finite trees only (named types are opaque, receivers may point back to the enclosing interface): cycles
+   through named interfaces are outside the term language, see the model header. *)
 Theorem C28_identical_total : forall x y, exists b : bool,
   forall fuel, (size x + size y <= fuel)%nat -> identical fuel x y = Some b.
 Proof. exact identical_total_bound. Qed.
@@ -27,3 +29,59 @@ Print Assumptions C28_identical_hash.
 Theorem C28_hash_range : forall (nh : N -> Z) a, (forall i, 0 <= nh i < 4294967296)%Z -> (0 <= hash nh a < 4294967296)%Z.
 Proof. exact hash_range. Qed.
 Print Assumptions C28_hash_range.
+
+(* typeutil.Map (hash buckets, tombstones left by Delete and reused by Set, length counter) refines the
+   association list keyed by identity, for EVERY history of Set/At/Delete/Len/Iterate over well-formed keys:
+   equal outputs (Iterate: the same entries in some order), same final entries, Len = number of entries, and
+   the entries are pairwise non-identical *)
+Theorem C28_map_refines_assoc : forall (nh : N -> Z) (e : env) (ops : list (mop ty)),
+  Forall (op_good ty (fun t => wfb e t = true)) ops ->
+  let mr := map_run ty identb (hash nh) (empty_map ty) ops in
+  let sr := spec_run ty identb [] ops in
+  Forall2 (out_equiv ty) (snd mr) (snd sr)
+  /\ Permutation (map_items ty (fst mr)) (fst sr)
+  /\ mlen ty (fst mr) = Z.of_nat (length (fst sr))
+  /\ uniq ty identb (fst sr).
+Proof. exact map_refines_assoc_ty. Qed.
+Print Assumptions C28_map_refines_assoc.
+
+(* the same refinement for any key type, identity relation and hash that respects it *)
+Theorem C28_map_refines_assoc_generic : forall (K : Type) (eqv : K -> K -> bool) (hsh : K -> Z) (good : K -> Prop),
+  (forall k, eqv k k = true) -> (forall a b, eqv a b = true -> eqv b a = true) ->
+  (forall a b c, eqv a b = true -> eqv b c = true -> eqv a c = true) ->
+  (forall a b, good a -> good b -> eqv a b = true -> hsh a = hsh b) ->
+  forall ops, Forall (op_good K good) ops ->
+  let mr := map_run K eqv hsh (empty_map K) ops in
+  let sr := spec_run K eqv [] ops in
+  Forall2 (out_equiv K) (snd mr) (snd sr)
+  /\ Permutation (map_items K (fst mr)) (fst sr)
+  /\ mlen K (fst mr) = Z.of_nat (length (fst sr))
+  /\ uniq K eqv (fst sr).
+Proof. exact map_refines_assoc. Qed.
+Print Assumptions C28_map_refines_assoc_generic.
+
+(* ---- the hypotheses are satisfiable on non-trivial values ---- *)
+Definition ex_env : env := [(1%N, [([77%N], Some [112%N])])].                 (* E1 = interface{ p.M() } *)
+Definition ex_E1u : ty := TIface [mkMeth true [77%N] (Some [112%N]) None [] [] false] [].
+(* interface{ E1; p.P(int) }: inherited M (receiver: E1's own interface), explicit P with self receiver *)
+Definition ex_x : ty := TIface [mkMeth false [77%N] (Some [112%N]) (Some ex_E1u) [] [] false;
+                                mkMeth true [80%N] (Some [112%N]) None [TBasic 2] [] false] [1%N].
+(* the same interface whose explicit method object is shared with another interface (receiver = a copy of x) *)
+Definition ex_y : ty := TIface [mkMeth false [77%N] (Some [112%N]) (Some ex_E1u) [] [] false;
+                                mkMeth true [80%N] (Some [112%N]) (Some ex_x) [TBasic 2] [] false] [1%N].
+Example C28_example_identical_hash :
+  wfb ex_env ex_x = true /\ wfb ex_env ex_y = true /\ identb ex_x ex_y = true /\ identb ex_y ex_x = true
+  /\ hash (fun _ => 12345%Z) ex_x = hash (fun _ => 12345%Z) ex_y
+  /\ identb ex_x (TIface [mkMeth true [80%N] (Some [112%N]) None [TBasic 2] [] false] []) = false.
+Proof. vm_compute. repeat split. Qed.
+
+(* two keys with equal hash that are not identical (field package is not hashed) share a bucket; Delete of the
+   second leaves the first, the tombstone is reused *)
+Definition ex_k (p : N) : ty := TSig (Some (TStruct [(mkF [97%N] (Some [p]) [] false, TBasic 2)])) [] [] false.
+Example C28_example_map :
+  Forall (op_good ty (fun t => wfb ex_env t = true)) [OSet (ex_k 112) 1%Z; OSet (ex_k 113) 2%Z; ODel (ex_k 113); OAt (ex_k 112); OSet ex_x 3%Z; OAt ex_y; OLen]
+  /\ hash (fun _ => 0%Z) (ex_k 112) = hash (fun _ => 0%Z) (ex_k 113) /\ identb (ex_k 112) (ex_k 113) = false
+  /\ snd (map_run ty identb (hash (fun _ => 0%Z)) (empty_map ty)
+            [OSet (ex_k 112) 1%Z; OSet (ex_k 113) 2%Z; ODel (ex_k 113); OAt (ex_k 112); OSet ex_x 3%Z; OAt ex_y; OLen])
+     = [RPrev None; RPrev None; RDel true; RVal (Some 1%Z); RPrev None; RVal (Some 3%Z); RLen 2%Z].
+Proof. split; [repeat constructor|]. vm_compute. repeat split. Qed.
